@@ -245,9 +245,25 @@ package service
 //@   ensures result != nil ==> fresh(result) && Z(result.Stake) == @select(ghost(mstake), old(bytes(minerId))) && bytes(result.Id) == old(bytes(minerId))
 //@   modifies nothing
 
-//@ func RefundManager.Add
+// Scheduling refunds (C20): a credit already scheduled for a payout height and an account is never lowered by
+// scheduling more - every entry either creates the slot with its amount or adds its amount to what is there.
+// (The exact sum per account needs a fold over the list and is not claimed.)
+//@ spec abstract fn refundAddr(h uint64) common.Address
+//@ func RefundManager.generateAddress
 //@   option trusted
-//@   modifies ghost(stver)
+//@   ensures result == refundAddr(height)
+//@   modifies nothing
+
+//@ func RefundManager.Add
+//@   property C20
+//@   option intmode=math
+//@   requires [singletons!init] refund != nil && refund.logger != nil
+//@   requires [entries] forall h uint64 :: has(data, h) ==> (forall i int :: 0 <= i && i < len(data[h].List) ==> data[h].List[i] != nil && data[h].List[i].Value != nil && big(data[h].List[i].Value) >= 0)
+//@   loop 0: invariant forall a Bytes, k Bytes :: @beval(@select(@select(ghost(adata), a), k)) >= old(@beval(@select(@select(ghost(adata), a), k)))
+//@   loop 1: invariant forall i int :: 0 <= i && i < len(list.List) ==> list.List[i] != nil && list.List[i].Value != nil && big(list.List[i].Value) >= 0
+//@   loop 1: invariant forall a Bytes, k Bytes :: @beval(@select(@select(ghost(adata), a), k)) >= old(@beval(@select(@select(ghost(adata), a), k)))
+//@   ensures [monotone] forall a Bytes, k Bytes :: @beval(@select(@select(ghost(adata), a), k)) >= old(@beval(@select(@select(ghost(adata), a), k)))
+//@   modifies ghost(adata), ghost(acct), ghost(stor), ghost(stver)
 
 // Reorg (C17): the transactions of a removed block are taken out of the executed database and become pending
 // again (whatever was pending stays pending).
